@@ -140,7 +140,7 @@ fn cmd_check(prop: &str, tier: &str) -> i32 {
     let mut died: Vec<(u64, u64, String)> = Vec::new();
     // watchdog: a worker whose announced seed does not change for this long is hung (a real
     // deadlock or livelock inside the code under test): kill it, report the seed, carry on
-    let hang_secs: u64 = std::env::var("VERIF_HANG_SECS").ok().and_then(|s| s.parse().ok()).unwrap_or(240);
+    let hang_secs: u64 = std::env::var("VERIF_HANG_SECS").ok().and_then(|s| s.parse().ok()).unwrap_or(900);
     let mut hung: std::collections::BTreeSet<String> = Default::default();
     let mut last_progress: BTreeMap<String, (String, std::time::Instant)> = BTreeMap::new();
     while !children.is_empty() {
